@@ -420,7 +420,7 @@ Qed.
 Lemma compact_encode_normalise n : compact_encode (normalise_num n) = compact_encode n.
 Proof.
   destruct n as [z|u|b]; cbn [normalise_num]; try reflexivity.
-  - destruct (z =? 0)%Z eqn:E; [|reflexivity]. cbn [compact_encode]. rewrite E. reflexivity.
+  - destruct (z =? 0)%Z eqn:E; [|reflexivity]. cbn [compact_encode]. unfold CE_INT_ZERO, CE_UINT_ZERO. rewrite E. reflexivity.
   - destruct (f_is_nan b) eqn:E; [|reflexivity]. cbn [compact_encode]. rewrite E.
     change (f_is_nan F_NAN) with true. reflexivity.
 Qed.
